@@ -27,6 +27,12 @@ pub struct Point {
     pub cost: u8,
 }
 
+impl CtxInner {
+    pub fn prefix_clone(&self) -> Vec<u32> {
+        self.prefix.clone()
+    }
+}
+
 #[derive(Debug, Default)]
 pub struct CtxInner {
     prefix: Vec<u32>,
